@@ -270,3 +270,18 @@ Section ScanProofs.
           rewrite (IH sc' x' [] t (ts, e) HS ltac:(lia) E1). exact Ha.
   Qed.
 End ScanProofs.
+
+(* Outside the guard (a_scan_all = Panic HAZARD) the statement is false of the faithful model, and
+   of bufio.Scanner (known finding F23): exactly MaxScanTokenSize bytes without a delimiter at the
+   end of the input -- io.EOF delivered after them: bufio.ErrTooLong; with them: no error, the
+   bytes are dropped. *)
+Definition f23_data : bytes := repeat x78 MaxScanTokenSize.
+Theorem scan_chunk_refuted :
+  exists cs cs' wl wl' gas fuel,
+    concat cs = concat cs' /\ runs_ok cs = true /\ runs_ok cs' = true /\
+    scan_all source io_read (byte_index_with_esc [x7e] []) 1 true false gas fuel (mkScan 0 [] 128 None) (mkSrc cs wl TEof) <>
+    scan_all source io_read (byte_index_with_esc [x7e] []) 1 true false gas fuel (mkScan 0 [] 128 None) (mkSrc cs' wl' TEof).
+Proof.
+  exists [f23_data], [f23_data], false, true, 400000, 10.
+  repeat split; try reflexivity. vm_compute. discriminate.
+Qed.
